@@ -123,13 +123,28 @@ def b_slow(tok, n=1):
     return tok
 
 
+def _make_op(order):
+    """Factory-made methods: same module and qualified name, different signatures (a realistic registration style)."""
+    if order == 'ab':
+        def op(tok, a, b=0):
+            return [a, b]
+    else:
+        def op(tok, b, a=0):
+            return [a, b]
+    return op
+
+
+b_op_ab = _make_op('ab')
+b_op_ba = _make_op('ba')
+
+
 def b_ctx_echo(ctx, tok, value=None):
     return value
 
 
 BODIES: Dict[str, Callable[..., Any]] = {
     'echo': b_echo, 'add': b_add, 'none': b_none, 'pair': b_pair,
-    'fail_proto': b_fail_proto, 'fail_exc': b_fail_exc, 'slow': b_slow,
+    'fail_proto': b_fail_proto, 'fail_exc': b_fail_exc, 'slow': b_slow, 'op_ab': b_op_ab, 'op_ba': b_op_ba,
 }
 SIGNATURES: Dict[str, inspect.Signature] = {name: inspect.signature(fn) for name, fn in BODIES.items()}
 
